@@ -37,6 +37,10 @@ type Ctx struct {
 	Verbose bool
 	Mode    string // workload variant chosen by the orchestrator
 	Waive   map[string]bool
+	// Filter lets a (single-goroutine) workload classify a mismatch as an open
+	// known finding by a semantic predicate on the current case before it is
+	// reported; it returns true when it has dealt with the report.
+	Filter func(i int, api, msg string, detail interface{}) bool
 
 	mu       sync.Mutex
 	log      *os.File
@@ -184,6 +188,14 @@ func (c *Ctx) emit(tag string, v interface{}) {
 
 // Violate reports a violation for the current case.
 func (c *Ctx) Violate(i int, api, msg string, detail interface{}) {
+	if f := c.Filter; f != nil {
+		c.Filter = nil // the filter may itself report
+		handled := f(i, api, msg, detail)
+		c.Filter = f
+		if handled {
+			return
+		}
+	}
 	c.mu.Lock()
 	c.viol++
 	n := c.viol
@@ -282,4 +294,9 @@ func trunc(s string, n int) string {
 }
 
 // q renders bytes for reports: printable, unambiguous.
-func q(s string) string { return strconv.QuoteToASCII(trunc(s, 400)) }
+func q(s string) string {
+	if len(s) <= 240 {
+		return strconv.QuoteToASCII(s)
+	}
+	return strconv.QuoteToASCII(s[:120]) + fmt.Sprintf("...(%d bytes)...", len(s)) + strconv.QuoteToASCII(s[len(s)-80:])
+}
